@@ -22,9 +22,9 @@ def c01_shapes(tier):
     if tier == 'quick':
         return quick
     out = list(quick)
-    for c in (1, 2, 4, 7, 8, 9):
+    for c in (1, 4, 8, 9):
         out.append((1, c, 0, 0, 3))
-    out += [(2, 2, 6, 0, 2), (2, 8, 8, 0, 2), (2, 0, 1, 0, 2)]
+    out += [(2, 2, 6, 0, 2), (2, 8, 8, 0, 2)]
     return out
 
 def c03_shapes(tier):
@@ -98,7 +98,7 @@ def c07f_shapes(tier):
 def c07h_shapes(tier):
     # (q, d, max queue ms, k, values, -,-, full chain)
     if tier == 'quick':
-        return [(2, 1, 500, 4, 2), (1, 1, 2000, 4, 1), (10, 2, 50, 4, 2), (0, 1, 500, 2, 1), (600, 1, 20, 3, 1), (7, 1, 100, 3, 1), (2, 1, 500, 2, 1, 0, 0, 1)]
+        return [(2, 1, 500, 4, 2), (1, 1, 2000, 4, 1), (10, 2, 50, 4, 2), (0, 1, 500, 2, 1), (600, 1, 20, 3, 1), (7, 1, 100, 3, 1), (2, 1, 0, 3, 1), (2, 1, 500, 2, 1, 0, 0, 1)]
     out = []
     for q in (1, 2, 7, 150, 600):
         for d in (1, 3):
@@ -110,8 +110,8 @@ def c07h_shapes(tier):
 def c04_shapes(tier):
     # (ops, flow rule on r0, isolation threshold on r1, sums after every op)
     if tier == 'quick':
-        return [(3, 1, 1, 0), (2, 0, 2, 1), (3, 2, 0, 1)]
-    return [(3, 1, 1, 0), (2, 0, 2, 1), (3, 2, 0, 1), (3, 1, 2, 1), (3, 0, 0, 1)]
+        return [(3, 1, 1, 0), (2, 0, 2, 1), (3, 2, 0, 1), (3, 3, 0, 1)]
+    return [(3, 1, 1, 0), (2, 0, 2, 1), (3, 2, 0, 1), (3, 3, 0, 1), (3, 1, 2, 1), (3, 0, 0, 1)]
 
 def c05_shapes(tier):
     if tier == 'quick':
@@ -391,7 +391,7 @@ PROPS = {
     },
     'C04': {
         'level': 'model_checking',
-        'bounds': 'two resources (one inbound, one outbound), optional flow rule (reject with threshold symbolic in [0,4]; or throttling 10/s with queueing up to 500 ms on one resource and gaps <= 300 ms, so that entries are held before they pass) on the first and isolation rule on the second; op sequences of length 2-3 (thorough: two more rule configurations) '
+        'bounds': 'two resources (one inbound, one outbound), optional flow rule (reject with threshold symbolic in [0,4]; or throttling 10/s with queueing up to 500 ms on one resource and gaps <= 300 ms, so that entries are held before they pass) on the first (or a system rule that admits one inbound entry at a time) and isolation rule on the second; op sequences of length 2-3 (thorough: two more rule configurations) '
                   'over {build r0, build r1, exit first/second open entry}; batch in [1,3]; gaps in [0,1200] ms; after every op all counters of both nodes and of the inbound node are compared with a ledger',
         'assumptions': ['virtual clock', 'window function of the default metric: two 500 ms buckets ending at the current bucket'],
         'scenarios': [
